@@ -72,6 +72,18 @@ Theorem C13_csv_structure_roundtrip : forall names rows,
 Proof. exact csv_structure_roundtrip. Qed.
 Print Assumptions C13_csv_structure_roundtrip.
 
+(* the final line break of a table carries no data: any table text reads the same with and without it, and the written
+   table without its final line break reads back as the same table *)
+Theorem C13_csv_final_newline_irrelevant : forall s, read_table (s ++ [newline]) = read_table s.
+Proof. exact read_table_final_newline. Qed.
+Print Assumptions C13_csv_final_newline_irrelevant.
+
+Theorem C13_csv_roundtrip_without_final_newline : forall names rows,
+  names <> [] -> Forall clean names -> Forall (fun r => r <> [] /\ Forall clean r) rows ->
+  exists s, write_table names rows = s ++ [newline] /\ read_table s = Some (names, rows).
+Proof. exact csv_roundtrip_without_final_newline. Qed.
+Print Assumptions C13_csv_roundtrip_without_final_newline.
+
 (* ---- the whole file (Model/VtuFile.v): VTUWriter.write followed by VTUReader, composed from the parts above.
    For every data set whose arrays fit their types (wf_vdata: values within the range of their numeric type, rows of the
    declared number of components, byte counts below 2^64, distinct cell types; the cells of one type may differ in their corner counts, as polygons do),
